@@ -238,12 +238,14 @@ Proof.
   destruct (validate_holder_state warn prof (mem ch) n c) as [[|]|];
     [| cbn [snd st refused]; hp_refused | cbn [snd st aborted]; hp_aborted].
   destruct (negb sg); [cbn [snd st refused]; hp_refused|].
-  cbn [snd st ok0]. unfold hpost. split; [intros Hx; discriminate|]. intros _.
-  split; [reflexivity|]. cbn [persist mem opt_cons o_secret o_hsig ok0].
   destruct (n =? next_h (mem ch)) eqn:E.
-  - apply N.eqb_eq in E. subst n. unfold HIe, set_nxt_h; cbn [next_h cur_h nxt_h closed].
+  - cbn [snd st ok0]. unfold hpost. split; [intros Hx; discriminate|]. intros _.
+    split; [reflexivity|]. cbn [persist mem opt_cons o_secret o_hsig ok0].
+    apply N.eqb_eq in E. subst n. unfold HIe, set_nxt_h; cbn [next_h cur_h nxt_h closed].
     unfold HIe in HH. bump. eapply HI_setnxt. exact HH.
-  - bump. apply HI_val_grow. exact HH.
+  - cbn [snd st ok0]. unfold hpost. split; [intros Hx; discriminate|]. intros _.
+    split; [exact Hmd|]. cbn [opt_cons o_secret o_hsig ok0].
+    unfold HIe in *. bump. apply HI_val_grow. exact HH.
 Qed.
 
 Lemma do_revoke_post b ch n py val dis hs :
@@ -638,7 +640,7 @@ Proof.
 Qed.
 
 Definition hrevoke (ch : chan) (n : N) (py : bool) : chan * outp :=
-  tbind (add_p prof n 1) (ch, aborted) (fun n1 =>
+  tbind (match add_checked n 1 with Some v => Val v | None => Trap end) (ch, refused) (fun n1 =>
     let '(ch', o) := do_revoke warn prof ch n1 py in
     match st o, o_secret o with
     | Ok, None => (ch', refused)
@@ -649,9 +651,10 @@ Lemma hrevoke_post b ch n py val dis hs :
   mem ch = disk ch -> HIe b (mem ch) val dis hs -> n <= U64MAX ->
   hpost b ch val dis hs (hrevoke ch n py).
 Proof.
-  intros Hmd HH Hn. unfold hrevoke, tbind.
-  destruct (add_p prof n 1) as [n1|] eqn:Ea; [|hp_aborted].
-  pose proof (do_revoke_post b ch n1 py val dis hs Hmd HH (add_p_le _ _ _ Ea)) as Hp.
+  intros Hmd HH Hn. unfold hrevoke, tbind, add_checked.
+  destruct (n + 1 <=? U64MAX) eqn:Ea; [|hp_refused].
+  set (n1 := n + 1).
+  pose proof (do_revoke_post b ch n1 py val dis hs Hmd HH ltac:(unfold n1; lia)) as Hp.
   pose proof (do_revoke_nohsig ch n1 py) as Hh.
   destruct (do_revoke warn prof ch n1 py) as [ch' o]. cbn [snd] in Hh.
   destruct (st o) eqn:Es; try exact Hp.
@@ -723,7 +726,8 @@ Proof.
   destruct (negb (point_ok (mem ch) n)); [cbn; discriminate|].
   destruct (negb pl); [cbn; discriminate|].
   destruct (validate_holder_state warn prof (mem ch) n c) as [[|]|]; try (cbn; discriminate).
-  destruct (negb sg); cbn; [discriminate | auto].
+  destruct (negb sg); [cbn; discriminate|].
+  destruct (n =? next_h (mem ch)); cbn; auto.
 Qed.
 
 Theorem hs_step b s g o :
@@ -907,8 +911,8 @@ Proof.
   destruct (negb (point_ok (mem ch) n)); [auto|].
   destruct (negb pl); [auto|].
   destruct (validate_holder_state warn prof (mem ch) n c) as [[|]|]; auto.
-  destruct (negb sg); [auto|]. cbn [fst persist mem].
-  destruct (n =? next_h (mem ch)); auto.
+  destruct (negb sg); [auto|].
+  destruct (n =? next_h (mem ch)); cbn [fst persist mem]; auto.
 Qed.
 
 Lemma do_validate_nosecret ch n c sg pl :
@@ -918,7 +922,7 @@ Proof.
   destruct (negb (point_ok (mem ch) n)); [reflexivity|].
   destruct (negb pl); [reflexivity|].
   destruct (validate_holder_state warn prof (mem ch) n c) as [[|]|]; try reflexivity.
-  destruct (negb sg); reflexivity.
+  destruct (negb sg); [reflexivity|]. destruct (n =? next_h (mem ch)); reflexivity.
 Qed.
 
 Lemma step0_secret_closed ch o :
@@ -1000,8 +1004,9 @@ Proof.
     intros k H; inversion H; subst. exists (n - 2). split; [lia|].
     apply (secret_res_ok (mem ch) (n - 2) k Es). lia.
   - (* HRevoke *)
-    unfold tbind. destruct (add_p prof n 1) as [n1|] eqn:Ea; [|cbn; intros k H; discriminate].
-    pose proof (do_revoke_sec ch n1 pay_ok (add_p_le _ _ _ Ea) Hc) as H.
+    unfold tbind, add_checked. destruct (n + 1 <=? U64MAX) eqn:Ea; [|cbn; intros k H; discriminate].
+    set (n1 := n + 1).
+    pose proof (do_revoke_sec ch n1 pay_ok ltac:(unfold n1; lia) Hc) as H.
     destruct (do_revoke warn prof ch n1 pay_ok) as [ch' o]. cbn [snd] in *.
     destruct (st o); try exact H. destruct (o_secret o) eqn:Eo; [cbn [snd]; rewrite Eo; exact H | cbn; intros k Hk; discriminate].
 Qed.
@@ -1060,7 +1065,8 @@ Proof.
   destruct (negb (point_ok (mem ch) n)); [cbn; discriminate|].
   destruct pl; cbn [negb]; [|cbn; discriminate].
   destruct (validate_holder_state warn prof (mem ch) n c) as [[|]|]; try (cbn; discriminate).
-  destruct sg; cbn [negb]; [auto | cbn; discriminate].
+  destruct sg; cbn [negb]; [|cbn; discriminate].
+  destruct (n =? next_h (mem ch)); auto.
 Qed.
 
 Lemma validates_origin warn prof s o n c :
